@@ -5,7 +5,7 @@ R=/tmp/alt_repo/repo
 cd $R && git checkout -q -- . && git clean -fdq -e target >/dev/null 2>&1
 git apply /tmp/seed/out/$id/patch.diff || { echo "$id: patch does not apply"; exit 2; }
 for c in $checks; do
-  out=$(cd /verif && VERIF_REPO=$R ./check_alt $c --tier ${TIER:-quick} 2>/tmp/seed_eval_$id.err); rc=$?
+  out=$(cd /verif && VERIF_ENGINE_SRC=${VERIF_ENGINE_SRC:-/verif/engine} VERIF_REPO=$R ./check_alt $c --tier ${TIER:-quick} 2>/tmp/seed_eval_$id.err); rc=$?
   echo "seed $id check=$c exit=$rc $(echo "$out" | grep -c '^VIOLATION') violation lines; $(grep -m1 -E '^  (scenario|C[0-9]+:)' /tmp/seed_eval_$id.err | cut -c1-220)"
 done
 cd $R && git checkout -q -- .
